@@ -1,9 +1,12 @@
-import PysnarkModel.Lemmas.BranchStruct
+import PysnarkModel.Lemmas.BranchTree
 /-!
 # Block branching: a variable that a statement does not assign keeps its object
 
-(the same `LinComb`: value and wire expression, and the same identity, so no constraint is spent
-on it), whatever the conditions are and whichever way the guards go.
+when it holds secret integers (`LinComb`s, or nested lists of them): the same `LinComb`s (value and
+wire expression) with the same identities, so no constraint is spent on it, whatever the
+conditions are and whichever way the guards go.  (Booleans and fixed-point numbers are re-created by
+the snapshot `copy.deepcopy` takes when a block is entered, so an untouched one comes out of the
+merge as a NEW object with the same number: `execStmt_ref` + `nStmt_untouched`.)
 -/
 namespace Pysnark
 
@@ -11,6 +14,8 @@ mutual
 /-- the tracked variables a statement may bind (syntactically) -/
 def BStmt.assigns : BStmt → Nat → Bool
   | .assign y _, x => y == x
+  | .setitem y _ _, x => y == x
+  | .sel y _ _ _, x => y == x
   | .ite y _ _ _, x => y == x
   | .ifs _ body rest, x => body.assigns x || rest.assigns x
   | .forr _ _ _ body, x => body.assigns x
@@ -24,39 +29,88 @@ def BIfRest.assigns : BIfRest → Nat → Bool
   | .elif _ b rest, x => b.assigns x || rest.assigns x
 end
 
-theorem mergeObj_same {c : LinComb} {t r : Obj} {n n' : Nat} {s s' : St}
-    (h : mergeObj c t t n s = .ok ((r, n'), s')) : r = t := by
-  rcases mergeObj_ok h with ⟨_, _, hr, _, _⟩ | ⟨hne, _⟩
-  · exact hr
-  · exact (hne rfl).elim
+theorem SVal.dcopy_stable {o : SVal} (h : o.stable = true) : o.dcopy = o := by
+  cases o with
+  | pub c => cases h
+  | sc k l id => cases k <;> cases id <;> first | rfl | cases h
+
+theorem TVal.dcopy_stable : ∀ {t : TVal}, t.stable = true → t.dcopy = t := by
+  intro t
+  unfold TVal.stable TVal.dcopy
+  induction t using PTree.rec (motive_2 := fun ts => ts.all (PTree.all SVal.stable) = true → ts.map (PTree.map SVal.dcopy) = ts) with
+  | leaf a => intro h; simp only [PTree.all_leaf] at h; simp only [PTree.map_leaf, SVal.dcopy_stable h]
+  | node ts ih => intro h; simp only [PTree.all_node] at h; simp only [PTree.map_node, ih h]
+  | nil => rfl
+  | cons t ts iht ihts =>
+    rename_i h
+    simp only [List.all_cons, Bool.and_eq_true] at h
+    simp only [List.map_cons, iht h.1, ihts h.2]
+
+theorem mergeS_stable {c : LinComb} {t r : SVal} {n n' : Nat} {s s' : St} (hs : t.stable = true)
+    (h : mergeS c t t n s = .ok ((r, n'), s')) : r = t ∧ n' = n ∧ s' = s := by
+  rcases mergeS_ok h with ⟨_, _, hr, hn, hs'⟩ | ⟨hne, _⟩
+  · exact ⟨hr, hn, hs'⟩
+  · cases t with
+    | pub c => cases hs
+    | sc k l id =>
+      cases k <;> cases id <;> first | cases hs | skip
+      simp [SVal.sameObj] at hne
+
+mutual
+/-- merging a value of secret integers with itself (with its snapshot): the identity shortcut at
+every leaf, nothing is emitted -/
+theorem mergeT_stable {c : LinComb} : ∀ {t r : TVal} {n n' : Nat} {s s' : St}, t.stable = true →
+    mergeT c t t n s = .ok ((r, n'), s') → r = t ∧ n' = n ∧ s' = s
+  | .leaf a, r, n, n', s, s', hs, h => by
+    obtain ⟨o, ho, rfl⟩ := mergeT_leaf_ok h
+    simp only [TVal.stable, PTree.all_leaf] at hs
+    obtain ⟨rfl, h2, h3⟩ := mergeS_stable hs ho
+    exact ⟨rfl, h2, h3⟩
+  | .node ts, r, n, n', s, s', hs, h => by
+    obtain ⟨rs, hrs, rfl⟩ := mergeT_node_ok h
+    simp only [TVal.stable, PTree.all_node] at hs
+    obtain ⟨rfl, h2, h3⟩ := mergeTL_stable hs hrs
+    exact ⟨rfl, h2, h3⟩
+theorem mergeTL_stable {c : LinComb} : ∀ {ts rs : List TVal} {n n' : Nat} {s s' : St},
+    ts.all (PTree.all SVal.stable) = true → mergeTL c ts ts n s = .ok ((rs, n'), s') → rs = ts ∧ n' = n ∧ s' = s
+  | [], rs, n, n', s, s', _, h => mergeTL_nil_ok h
+  | t :: ts, rs, n, n', s, s', hs, h => by
+    obtain ⟨r, n1, s1, rs', h1, h2, rfl⟩ := mergeTL_cons_ok h
+    simp only [List.all_cons, Bool.and_eq_true] at hs
+    obtain ⟨rfl, rfl, rfl⟩ := mergeT_stable (t := t) hs.1 h1
+    obtain ⟨rfl, h3, h4⟩ := mergeTL_stable hs.2 h2
+    exact ⟨rfl, h3, h4⟩
+end
 
 theorem mergeBak_untouched {c : LinComb} {bak : Vals} {x : Nat} : ∀ {vals rs : Vals} {n n' : Nat} {s s' : St},
-    mergeBak c bak vals n s = .ok ((rs, n'), s') → vals.get? x = bak.get? x → rs.get? x = vals.get? x
-  | [], rs, n, n', s, s', h, _ => by
+    mergeBak c bak vals n s = .ok ((rs, n'), s') → vals.get? x = bak.get? x →
+    (∀ t, vals.get? x = some t → t.stable = true) → rs.get? x = vals.get? x
+  | [], rs, n, n', s, s', h, _, _ => by
     unfold mergeBak at h
     obtain ⟨h1, _⟩ := pure_ok' h
     simp only [Prod.mk.injEq] at h1
     rw [← h1.1]
-  | (y, t) :: rest, rs, n, n', s, s', h, hx => by
+  | (y, t) :: rest, rs, n, n', s, s', h, hx, hst => by
     obtain ⟨f, r, n1, s1, rs', hf, hm, h3, rfl⟩ := mergeBak_cons_ok h
-    simp only [Vals.get?] at hx ⊢
+    simp only [Vals.get?] at hx hst ⊢
     by_cases hy : y = x
     · subst hy
-      simp only [if_true] at hx ⊢
+      simp only [if_true] at hx hst ⊢
       rw [hf] at hx
       cases hx
-      rw [mergeObj_same hm]
-    · simp only [hy, if_false] at hx ⊢
-      exact mergeBak_untouched h3 hx
+      rw [(mergeT_stable (hst t rfl) hm).1]
+    · simp only [hy, if_false] at hx hst ⊢
+      exact mergeBak_untouched h3 hx hst
 
 /-- the variable `x` holds `o` (or is unbound), held it at the last `enter`, and is not among the
 names first bound inside the statement -/
-structure ChainU (x : Nat) (o : Option Obj) (ctx : BCtx) (vals : Vals) : Prop where
+structure ChainU (x : Nat) (o : Option TVal) (ctx : BCtx) (vals : Vals) : Prop where
   vals : vals.get? x = o
   bak : ctx.bak.get? x = o
   nd : ∀ nd, ctx.nodefvals = some nd → nd.has x = false
+  stab : ∀ t, o = some t → t.stable = true
 
-theorem ChainU.exit {x : Nat} {o : Option Obj} {ctx ctx' : BCtx} {bv bv' : BV} {s s' : St}
+theorem ChainU.exit {x : Nat} {o : Option TVal} {ctx ctx' : BCtx} {bv bv' : BV} {s s' : St}
     (hd : ChainU x o ctx bv.vals) (h : ctx.exit bv s = .ok ((ctx', bv'), s')) :
     bv'.vals.get? x = o ∧ ∀ nd, ctx'.nodefvals = some nd → nd.has x = false := by
   obtain ⟨s1, nd, n1, s2, vals, n2, _, hnd, hb, rfl, rfl⟩ := exit_ok h
@@ -69,18 +123,23 @@ theorem ChainU.exit {x : Nat} {o : Option Obj} {ctx ctx' : BCtx} {bv bv' : BV} {
     · rw [mergeNodef_has hm x]; exact hd.nd nd0 hn0
   refine ⟨?_, fun nd' hn' => by cases hn'; exact hndx⟩
   have hrm : (bv.vals.removeAll nd).get? x = o := by rw [Vals.get?_removeAll, hndx]; exact hd.vals
-  rw [mergeBak_untouched hb (by rw [hrm, hd.bak]), hrm]
+  rw [mergeBak_untouched hb (by rw [hrm, hd.bak]) (by rw [hrm]; exact hd.stab), hrm]
 
-theorem ChainU.enter {x : Nat} {o : Option Obj} {ctx ctx' : BCtx} {c : LinComb} {bv : BV} {s s' : St}
+theorem ChainU.enter {x : Nat} {o : Option TVal} {ctx ctx' : BCtx} {c : LinComb} {bv : BV} {s s' : St}
     (hv : bv.vals.get? x = o) (hn : ∀ nd, ctx.nodefvals = some nd → nd.has x = false)
+    (hst : ∀ t, o = some t → t.stable = true)
     (h : ctx.enter c bv s = .ok (ctx', s')) : ChainU x o ctx' bv.vals := by
   obtain ⟨_, hb, _, _, hnd⟩ := enter_struct h
-  exact ⟨hv, by rw [hb]; exact hv, fun nd h' => hn nd (hnd ▸ h')⟩
+  refine ⟨hv, ?_, fun nd h' => hn nd (hnd ▸ h'), hst⟩
+  rw [hb, Vals.get?_backup, hv]
+  cases o with
+  | none => rfl
+  | some t => simp only [Option.map_some, TVal.dcopy_stable (hst t rfl)]
 
-def TopU (x : Nat) (o : Option Obj) (stk : List BCtx) (bs : BSt) : Prop :=
+def TopU (x : Nat) (o : Option TVal) (stk : List BCtx) (bs : BSt) : Prop :=
   ∃ ctx, bs.stack = ctx :: stk ∧ ChainU x o ctx bs.bv.vals
 
-theorem TopU.whileNext {x : Nat} {o : Option Obj} {stk : List BCtx} {bs bs' : BSt} {cond : Val} {s s' : St}
+theorem TopU.whileNext {x : Nat} {o : Option TVal} {stk : List BCtx} {bs bs' : BSt} {cond : Val} {s s' : St}
     (hd : TopU x o stk bs) (h : bWhileNext cond bs s = .ok (bs', s')) : TopU x o stk bs' := by
   obtain ⟨ctx0, hs0, hc⟩ := hd
   obtain ⟨ctx, rest, c, ctx', bv', hs, _, _, hw, rfl⟩ := bWhileNext_ok h
@@ -88,9 +147,9 @@ theorem TopU.whileNext {x : Nat} {o : Option Obj} {stk : List BCtx} {bs bs' : BS
   obtain ⟨ctx1, s1, c1, s2, he, _, hen⟩ := whileNext_ok hw
   obtain ⟨hx, _⟩ := whileExit_ok he
   obtain ⟨hv, hn⟩ := hc.exit hx
-  exact ⟨ctx', rfl, ChainU.enter hv hn hen⟩
+  exact ⟨ctx', rfl, ChainU.enter hv hn hc.stab hen⟩
 
-theorem TopU.breakStep {x : Nat} {o : Option Obj} {stk : List BCtx} {env : BEnv} {brk : Option BCond}
+theorem TopU.breakStep {x : Nat} {o : Option TVal} {stk : List BCtx} {env : BEnv} {brk : Option BCond}
     {bs bs' : BSt} {s s' : St} (hd : TopU x o stk bs) (h : breakStep env brk bs s = .ok (bs', s')) :
     TopU x o stk bs' := by
   unfold Pysnark.breakStep at h
@@ -103,7 +162,7 @@ theorem TopU.breakStep {x : Nat} {o : Option Obj} {stk : List BCtx} {env : BEnv}
     obtain ⟨cb, nc, t5, _, _, h⟩ := bBreakif_ok h
     exact hd.whileNext h
 
-theorem TopU.end_ {x : Nat} {o : Option Obj} {stk : List BCtx} {bs bs' : BSt} {s s' : St}
+theorem TopU.end_ {x : Nat} {o : Option TVal} {stk : List BCtx} {bs bs' : BSt} {s s' : St}
     (hd : TopU x o stk bs) (h : bEndif bs s = .ok (bs', s') ∨ bEndwhile bs s = .ok (bs', s')) :
     bs'.bv.vals.get? x = o := by
   obtain ⟨ctx0, hs0, hc⟩ := hd
@@ -119,64 +178,78 @@ theorem TopU.end_ {x : Nat} {o : Option Obj} {stk : List BCtx} {bs bs' : BSt} {s
   · obtain ⟨hx, _⟩ := whileExit_ok he
     exact (hc.exit hx).1
 
+theorem get?_backup_stable {vs : Vals} {x : Nat} (hst : ∀ t, vs.get? x = some t → t.stable = true) :
+    vs.backup.get? x = vs.get? x := by
+  rw [Vals.get?_backup]
+  cases hg : vs.get? x with
+  | none => rfl
+  | some t => simp only [Option.map_some, TVal.dcopy_stable (hst t hg)]
+
 theorem TopU.push {x : Nat} {bs bs' : BSt} {cond : Val} {s s' : St}
+    (hst : ∀ t, bs.bv.vals.get? x = some t → t.stable = true)
     (h : bIf cond bs s = .ok (bs', s') ∨ bWhilePush cond bs s = .ok (bs', s')) :
     TopU x (bs.bv.vals.get? x) bs.stack bs' := by
   rcases h with h | h
   · obtain ⟨c, ctx, _, hn, rfl⟩ := bIf_ok h
     obtain ⟨ic, s1, og, _, _, rfl⟩ := ifNew_ok hn
-    exact ⟨_, rfl, ⟨rfl, rfl, fun nd h' => by cases h'⟩⟩
+    exact ⟨_, rfl, ⟨rfl, get?_backup_stable hst, (fun nd h' => by cases h'), hst⟩⟩
   · obtain ⟨c, ctx, _, hn, rfl⟩ := bWhilePush_ok h
     obtain ⟨og, _, rfl⟩ := whileNew_ok hn
-    exact ⟨_, rfl, ⟨rfl, rfl, fun nd h' => by cases h'⟩⟩
+    exact ⟨_, rfl, ⟨rfl, get?_backup_stable hst, (fun nd h' => by cases h'), hst⟩⟩
 
-theorem bindNew_untouched {x y : Nat} {v : Val} {bs bs' : BSt} {s s' : St} (hxy : (y == x) = false)
-    (h : bindNew y v bs s = .ok (bs', s')) : bs'.bv.vals.get? x = bs.bv.vals.get? x := by
-  unfold bindNew at h
-  cases v <;> first | exact (raise_ok.mp h).elim | skip
-  obtain ⟨rfl, rfl⟩ := pure_ok' h
+theorem bindT_untouched {x y : Nat} {t : TVal} {n : Nat} {bs bs' : BSt} {s s' : St} (hxy : (y == x) = false)
+    (h : bindT y t n bs s = .ok (bs', s')) : bs'.bv.vals.get? x = bs.bv.vals.get? x := by
+  obtain ⟨_, rfl, _⟩ := bindT_ok h
   have : ¬ y = x := by simpa using hxy
   simp only [Vals.get?_set, this, if_false]
 
-theorem bindVar_untouched {env : BEnv} {x y : Nat} {e : BExpr} {v : Val} {bs bs' : BSt} {s s' : St}
-    (hxy : (y == x) = false) (h : bindVar env y e v bs s = .ok (bs', s')) :
-    bs'.bv.vals.get? x = bs.bv.vals.get? x := by
-  unfold bindVar at h
-  cases hl : leafObj env bs.bv e with
-  | some o =>
-    simp only [hl] at h
-    obtain ⟨rfl, rfl⟩ := pure_ok' h
-    have : ¬ y = x := by simpa using hxy
-    simp only [Vals.get?_set, this, if_false]
-  | none =>
-    simp only [hl] at h
-    exact bindNew_untouched hxy h
-
 mutual
 theorem execStmt_untouched : ∀ (st : BStmt) (x : Nat) (env : BEnv) (bs bs' : BSt) (s s' : St),
-    st.assigns x = false → execStmt env st bs s = .ok (bs', s') → bs'.bv.vals.get? x = bs.bv.vals.get? x
-  | .assign y e, x, env, bs, bs', s, s', hx, h => by
+    st.assigns x = false → (∀ t, bs.bv.vals.get? x = some t → t.stable = true) →
+    execStmt env st bs s = .ok (bs', s') → bs'.bv.vals.get? x = bs.bv.vals.get? x
+  | .assign y e, x, env, bs, bs', s, s', hx, _, h => by
     unfold execStmt at h
-    obtain ⟨v, s1, _, h2⟩ := bind_ok.mp h
-    exact bindVar_untouched (by simpa [BStmt.assigns] using hx) h2
-  | .ite y c t f, x, env, bs, bs', s, s', hx, h => by
+    obtain ⟨⟨t, n⟩, s1, _, h2⟩ := bind_ok.mp h
+    exact bindT_untouched (by simpa [BStmt.assigns] using hx) h2
+  | .setitem y path e, x, env, bs, bs', s, s', hx, _, h => by
+    unfold execStmt at h
+    obtain ⟨⟨t, n⟩, s1, _, h2⟩ := bind_ok.mp h
+    dsimp only at h2
+    cases hg : bs.bv.vals.get? y with
+    | none => simp only [hg] at h2; exact (raise_ok.mp h2).elim
+    | some old =>
+      simp only [hg] at h2
+      cases hs : old.set path t with
+      | none => simp only [hs] at h2; exact (raise_ok.mp h2).elim
+      | some new =>
+        simp only [hs] at h2
+        exact bindT_untouched (by simpa [BStmt.assigns] using hx) h2
+  | .sel y c t f, x, env, bs, bs', s, s', hx, _, h => by
+    unfold execStmt at h
+    obtain ⟨cv, s1, _, h⟩ := bind_ok.mp h
+    obtain ⟨⟨tv, n1⟩, s2, _, h⟩ := bind_ok.mp h
+    obtain ⟨⟨fv, n2⟩, s3, _, h⟩ := bind_ok.mp h
+    obtain ⟨cl, s4, _, h⟩ := bind_ok.mp h
+    obtain ⟨⟨r, n3⟩, s5, _, h⟩ := bind_ok.mp h
+    exact bindT_untouched (by simpa [BStmt.assigns] using hx) h
+  | .ite y c t f, x, env, bs, bs', s, s', hx, _, h => by
     unfold execStmt at h
     obtain ⟨cv, s1, _, h⟩ := bind_ok.mp h
     obtain ⟨cl, s2, _, h⟩ := bind_ok.mp h
-    obtain ⟨r, s3, _, h⟩ := bind_ok.mp h
-    exact bindNew_untouched (by simpa [BStmt.assigns] using hx) h
-  | .ifs c body rest, x, env, bs, bs', s, s', hx, h => by
+    obtain ⟨⟨r, n3⟩, s3, _, h⟩ := bind_ok.mp h
+    exact bindT_untouched (by simpa [BStmt.assigns] using hx) h
+  | .ifs c body rest, x, env, bs, bs', s, s', hx, hstab, h => by
     unfold execStmt at h
     simp only [BStmt.assigns, Bool.or_eq_false_iff] at hx
     obtain ⟨cv, s1, _, h⟩ := bind_ok.mp h
     obtain ⟨bs1, s2, h1, h⟩ := bind_ok.mp h
     obtain ⟨bs2, s3, h2, h⟩ := bind_ok.mp h
-    obtain ⟨ctx, hs1, hc⟩ := TopU.push (x := x) (Or.inl h1)
-    obtain ⟨hst, _⟩ := execBlock_struct body env bs1 bs2 s2 s3 h2
-    have hb := execBlock_untouched body x env bs1 bs2 s2 s3 hx.1 h2
-    have htop : TopU x (bs.bv.vals.get? x) bs.stack bs2 := ⟨ctx, by rw [hst, hs1], ⟨hb.trans hc.vals, hc.bak, hc.nd⟩⟩
+    obtain ⟨ctx, hs1, hc⟩ := TopU.push (x := x) hstab (Or.inl h1)
+    obtain ⟨⟨hst, _⟩, _⟩ := execBlock_struct body env bs1 bs2 s2 s3 h2
+    have hb := execBlock_untouched body x env bs1 bs2 s2 s3 hx.1 (by rw [hc.vals]; exact hstab) h2
+    have htop : TopU x (bs.bv.vals.get? x) bs.stack bs2 := ⟨ctx, by rw [hst, hs1], ⟨hb.trans hc.vals, hc.bak, hc.nd, hc.stab⟩⟩
     exact execIfRest_untouched rest x env bs2 bs' s3 s' _ _ hx.2 htop h
-  | .forr lv bound mx body, x, env, bs, bs', s, s', hx, h => by
+  | .forr lv bound mx body, x, env, bs, bs', s, s', hx, hstab, h => by
     unfold execStmt at h
     simp only [BStmt.assigns] at hx
     obtain ⟨stop, s1, _, h⟩ := bind_ok.mp h
@@ -186,10 +259,10 @@ theorem execStmt_untouched : ∀ (st : BStmt) (x : Nat) (env : BEnv) (bs bs' : B
     obtain ⟨bs1, s3, h1, h⟩ := bind_ok.mp h
     obtain ⟨bs2, s4, h2, h⟩ := bind_ok.mp h
     obtain ⟨bs3, s5, h3, h⟩ := bind_ok.mp h
-    obtain ⟨ctx, hs1, hc⟩ := TopU.push (x := x) (Or.inr h1)
-    obtain ⟨hst, _⟩ := execBlock_struct body _ bs1 bs2 s3 s4 h2
-    have hb := execBlock_untouched body x _ bs1 bs2 s3 s4 hx h2
-    have htop : TopU x (bs.bv.vals.get? x) bs.stack bs2 := ⟨ctx, by rw [hst, hs1], ⟨hb.trans hc.vals, hc.bak, hc.nd⟩⟩
+    obtain ⟨ctx, hs1, hc⟩ := TopU.push (x := x) hstab (Or.inr h1)
+    obtain ⟨⟨hst, _⟩, _⟩ := execBlock_struct body _ bs1 bs2 s3 s4 h2
+    have hb := execBlock_untouched body x _ bs1 bs2 s3 s4 hx (by rw [hc.vals]; exact hstab) h2
+    have htop : TopU x (bs.bv.vals.get? x) bs.stack bs2 := ⟨ctx, by rw [hst, hs1], ⟨hb.trans hc.vals, hc.bak, hc.nd, hc.stab⟩⟩
     have htop3 : TopU x (bs.bv.vals.get? x) bs.stack bs3 := by
       refine iterM_inv (fun b _ => TopU x (bs.bv.vals.get? x) bs.stack b) _ ?_ _ _ _ _ _ _ htop h3
       intro i b t b' t' hp hstep
@@ -197,17 +270,17 @@ theorem execStmt_untouched : ∀ (st : BStmt) (x : Nat) (env : BEnv) (bs bs' : B
       obtain ⟨cc, t1, _, hstep⟩ := bind_ok.mp hstep
       obtain ⟨b1, t2, hw, hstep⟩ := bind_ok.mp hstep
       obtain ⟨ctx1, hs', hc'⟩ := hp.whileNext hw
-      obtain ⟨hst', _⟩ := execBlock_struct body _ b1 b' t2 t' hstep
-      have hb' := execBlock_untouched body x _ b1 b' t2 t' hx hstep
-      exact ⟨ctx1, by rw [hst', hs'], ⟨hb'.trans hc'.vals, hc'.bak, hc'.nd⟩⟩
+      obtain ⟨⟨hst', _⟩, _⟩ := execBlock_struct body _ b1 b' t2 t' hstep
+      have hb' := execBlock_untouched body x _ b1 b' t2 t' hx (by rw [hc'.vals]; exact hstab) hstep
+      exact ⟨ctx1, by rw [hst', hs'], ⟨hb'.trans hc'.vals, hc'.bak, hc'.nd, hc'.stab⟩⟩
     exact htop3.end_ (Or.inr h)
-  | .whil c mx body brk, x, env, bs, bs', s, s', hx, h => by
+  | .whil c mx body brk, x, env, bs, bs', s, s', hx, hstab, h => by
     unfold execStmt at h
     simp only [BStmt.assigns] at hx
     obtain ⟨c0, s1, _, h⟩ := bind_ok.mp h
     obtain ⟨bs1, s2, h1, h⟩ := bind_ok.mp h
     obtain ⟨bs2, s3, h2, h⟩ := bind_ok.mp h
-    have htop := TopU.push (x := x) (Or.inr h1)
+    have htop := TopU.push (x := x) hstab (Or.inr h1)
     have htop2 : TopU x (bs.bv.vals.get? x) bs.stack bs2 := by
       refine iterM_inv (fun b _ => TopU x (bs.bv.vals.get? x) bs.stack b) _ ?_ _ _ _ _ _ _ htop h2
       intro i b t b' t' hp hstep
@@ -216,26 +289,28 @@ theorem execStmt_untouched : ∀ (st : BStmt) (x : Nat) (env : BEnv) (bs bs' : B
       obtain ⟨b2, t2, hbr, hstep⟩ := bind_ok.mp hstep
       obtain ⟨cn, t3, _, hstep⟩ := bind_ok.mp hstep
       obtain ⟨ctx1, hs', hc'⟩ := hp
-      obtain ⟨hst', _⟩ := execBlock_struct body env b b1 t t1 hb
-      have hb' := execBlock_untouched body x env b b1 t t1 hx hb
-      have hp1 : TopU x (bs.bv.vals.get? x) bs.stack b1 := ⟨ctx1, by rw [hst', hs'], ⟨hb'.trans hc'.vals, hc'.bak, hc'.nd⟩⟩
+      obtain ⟨⟨hst', _⟩, _⟩ := execBlock_struct body env b b1 t t1 hb
+      have hb' := execBlock_untouched body x env b b1 t t1 hx (by rw [hc'.vals]; exact hstab) hb
+      have hp1 : TopU x (bs.bv.vals.get? x) bs.stack b1 := ⟨ctx1, by rw [hst', hs'], ⟨hb'.trans hc'.vals, hc'.bak, hc'.nd, hc'.stab⟩⟩
       exact (hp1.breakStep hbr).whileNext hstep
     exact htop2.end_ (Or.inr h)
 
 theorem execBlock_untouched : ∀ (b : BBlock) (x : Nat) (env : BEnv) (bs bs' : BSt) (s s' : St),
-    b.assigns x = false → execBlock env b bs s = .ok (bs', s') → bs'.bv.vals.get? x = bs.bv.vals.get? x
-  | .nil, x, env, bs, bs', s, s', _, h => by
+    b.assigns x = false → (∀ t, bs.bv.vals.get? x = some t → t.stable = true) →
+    execBlock env b bs s = .ok (bs', s') → bs'.bv.vals.get? x = bs.bv.vals.get? x
+  | .nil, x, env, bs, bs', s, s', _, _, h => by
     unfold execBlock at h
     obtain ⟨rfl, rfl⟩ := pure_ok' h
     rfl
-  | .cons st rest, x, env, bs, bs', s, s', hx, h => by
+  | .cons st rest, x, env, bs, bs', s, s', hx, hstab, h => by
     unfold execBlock at h
     simp only [BBlock.assigns, Bool.or_eq_false_iff] at hx
     obtain ⟨bs1, s1, h1, h2⟩ := bind_ok.mp h
-    rw [execBlock_untouched rest x env bs1 bs' s1 s' hx.2 h2, execStmt_untouched st x env bs bs1 s s1 hx.1 h1]
+    have e1 := execStmt_untouched st x env bs bs1 s s1 hx.1 hstab h1
+    rw [execBlock_untouched rest x env bs1 bs' s1 s' hx.2 (by rw [e1]; exact hstab) h2, e1]
 
 theorem execIfRest_untouched : ∀ (rest : BIfRest) (x : Nat) (env : BEnv) (bs bs' : BSt) (s s' : St)
-    (o : Option Obj) (stk : List BCtx), rest.assigns x = false → TopU x o stk bs →
+    (o : Option TVal) (stk : List BCtx), rest.assigns x = false → TopU x o stk bs →
     execIfRest env rest bs s = .ok (bs', s') → bs'.bv.vals.get? x = o
   | .endif, x, env, bs, bs', s, s', o, stk, _, hd, h => by
     unfold execIfRest at h
@@ -251,10 +326,10 @@ theorem execIfRest_untouched : ∀ (rest : BIfRest) (x : Nat) (env : BEnv) (bs b
     rw [hs0] at hs; cases hs
     obtain ⟨ctx1, t1, ic, ctx2, hx', _, hen, rfl⟩ := ifElse_ok he
     obtain ⟨hv, hn⟩ := hc.exit hx'
-    have hc2 := ChainU.enter hv hn hen
-    obtain ⟨hst, _⟩ := execBlock_struct b env _ bs2 s1 s2 h2
-    have hb := execBlock_untouched b x env _ bs2 s1 s2 hx h2
-    have htop : TopU x o stk bs2 := ⟨_, hst, ⟨hb.trans hc2.vals, hc2.bak, hc2.nd⟩⟩
+    have hc2 := ChainU.enter hv hn hc.stab hen
+    obtain ⟨⟨hst, _⟩, _⟩ := execBlock_struct b env _ bs2 s1 s2 h2
+    have hb := execBlock_untouched b x env _ bs2 s1 s2 hx (by rw [hc2.vals]; exact hc.stab) h2
+    have htop : TopU x o stk bs2 := ⟨_, hst, ⟨hb.trans hc2.vals, hc2.bak, hc2.nd, hc2.stab⟩⟩
     exact htop.end_ (Or.inl h4)
   | .elif c b rest, x, env, bs, bs', s, s', o, stk, hx, hd, h => by
     unfold execIfRest at h
@@ -267,10 +342,10 @@ theorem execIfRest_untouched : ∀ (rest : BIfRest) (x : Nat) (env : BEnv) (bs b
     rw [hs0] at hs; cases hs
     obtain ⟨ctx1, t1, nw, t2, ic, nn, t3, nwic, t4, cc, t5, ctx2, hx', _, _, _, _, _, hen, rfl⟩ := ifElif_ok he
     obtain ⟨hv, hn⟩ := hc.exit hx'
-    have hc2 := ChainU.enter hv hn hen
-    obtain ⟨hst, _⟩ := execBlock_struct b env _ bs2 s1 s2 h2
-    have hb := execBlock_untouched b x env _ bs2 s1 s2 hx.1 h2
-    have htop : TopU x o stk bs2 := ⟨_, hst, ⟨hb.trans hc2.vals, hc2.bak, hc2.nd⟩⟩
+    have hc2 := ChainU.enter hv hn hc.stab hen
+    obtain ⟨⟨hst, _⟩, _⟩ := execBlock_struct b env _ bs2 s1 s2 h2
+    have hb := execBlock_untouched b x env _ bs2 s1 s2 hx.1 (by rw [hc2.vals]; exact hc.stab) h2
+    have htop : TopU x o stk bs2 := ⟨_, hst, ⟨hb.trans hc2.vals, hc2.bak, hc2.nd, hc2.stab⟩⟩
     exact execIfRest_untouched rest x env bs2 bs' s2 s' o stk hx.2 htop h4
 end
 
